@@ -3,8 +3,10 @@
 # line each. Breaking changes must report >= 1 violation class; the T* twins must report 0.
 V="$(cd "$(dirname "$0")/.." && pwd)"
 cd "$V"
+# REGRESS_ONLY=<regex> restricts the run to matching names (e.g. the changes that were missed at first)
 for f in seeded/S*/patch.diff seeded/own/M*.diff seeded/own/T*.diff seeded/twins/*/patch.diff seeded/duplicates/*.diff; do
     n=$(echo "$f" | sed 's#seeded/##; s#/patch.diff##; s#own/##; s#.diff##')
+    if [ -n "${REGRESS_ONLY:-}" ] && ! echo "$n" | grep -Eq "$REGRESS_ONLY"; then continue; fi
     r=$(tools/try_patch.sh "$V/$f" --tier quick 2>&1 | grep -E "check: C16|harness error|patch does not apply" | sed 's/.*distinct inputs, //')
     echo "$n: $r"
 done
